@@ -285,7 +285,11 @@ class FGen:
             r = rng.random()
             if r < 0.6:
                 return V(rng.choice(sc))
-            return C(rng.choice([0, 1, 2, -1, 3, 0.5, 2.5, 0.1, 1e-05, 2.5e-06, 1e+16]))
+            # dyadic constants only: concrete floating-point arithmetic on them is exact, so the exact-rational model and
+            # the interpreter's Python floats agree (max(b, 2.5e-06)**2 on the path where the constant wins is computed in
+            # floating point: 6.250000000000001e-12).  9.5367431640625e-07 is 2**-20 (prints in exponent notation);
+            # constants that are not exact in binary32 stay in the curated program exponent_literals.
+            return C(rng.choice([0, 1, 2, -1, 3, 0.5, 2.5, 0.375, 9.5367431640625e-07]))
         op = rng.choice(["+", "+", "*", "*", "/", "pow", "if", "min", "max"])
         a, b = self.scalar(sc, depth - 1), self.scalar(sc, depth - 1)
         if _constant_only(a) and (_constant_only(b) or op == "pow"):
